@@ -120,6 +120,18 @@ def real_stream_cases(rng):
             yield f"first-frame-length-{target}", o, [("options", o)], triple_rows
 
 
+def parse_with_twins_options(data: bytes, twin: bytes, want_events):
+    """parse_jelly_flat(inp, options=<options read from the twin written in the OTHER mode>) without frames=: the framing
+    still has to come from the stream's own first bytes.  -> problem text or None"""
+    from pyjelly.integrations.generic import parse as gparse
+    try:
+        opts, _fr = get_options_and_frames(io.BytesIO(twin))
+        evs = T.norm_events([T.event_from_generic(x) for x in gparse.parse_jelly_flat(io.BytesIO(data), options=opts)])
+    except Exception as ex:  # noqa: BLE001
+        return f"raised {type(ex).__name__}: {str(ex)[:100]}"
+    return None if evs == want_events else "parses to different statements"
+
+
 def first_frame_length_sweep(ctx):
     """Every constructible first-frame length 16..200 (= every value of the stream's first byte a small real stream can
     have), both framings, through every way of handing the bytes to a parser: generic and rdflib parse_jelly_flat, and
@@ -295,6 +307,19 @@ def pyjelly_pairs(ctx, rng):
                 results.append(None)
             ctx.case(("pj", data[:3].hex(), delimited, pad, len(stmts)), 0x0A in data[1:3],
                      sample={"kind": "pyjelly-output", "delimited": delimited, "header": data[:3].hex(), "pad": pad})
+        if results and results[0] is not None and results[1] is not None and pad % 4 == 0:
+            twins = {}
+            for delimited in (True, False):
+                cfg["delimited"] = delimited
+                twins[delimited] = pj.serialize(cfg, stmts)
+            for delimited in (True, False):
+                bad = parse_with_twins_options(twins[delimited], twins[not delimited], results[0])
+                ctx.observe("parsed-with-options-object-of-the-twin")
+                if bad:
+                    ctx.violation({"clause": "framing-taken-from-passed-options", "mode": "delimited" if delimited else "non-delimited",
+                                   "header": twins[delimited][:3].hex(), "cfg": dict(cfg), "stmts": T.to_json(stmts),
+                                   "summary": f"pyjelly {'delimited' if delimited else 'non-delimited'} output parsed with "
+                                              f"parse_jelly_flat(inp, options=<options of its twin in the other mode>): {bad}"})
         if results and results[0] is not None and results[1] is not None:
             ctx.observe("paired-streams-parsed")
             if results[0] != results[1]:
@@ -438,7 +463,17 @@ def replay(w: dict):
             bad = probe_sources(data, delimited, res[-1])
             if bad:
                 return {"clause": "misclassified-through-source", "summary": f"{bad[0]}: {bad[2]}"}
-        return None if res[0] == res[1] else {"clause": "paired-parse-differs", "summary": "differs"}
+        if res[0] != res[1]:
+            return {"clause": "paired-parse-differs", "summary": "differs"}
+        twins = {}
+        for delimited in (True, False):
+            cfg["delimited"] = delimited
+            twins[delimited] = pj.serialize(cfg, stmts)
+        for delimited in (True, False):
+            bad = parse_with_twins_options(twins[delimited], twins[not delimited], res[0])
+            if bad:
+                return {"clause": "framing-taken-from-passed-options", "summary": bad}
+        return None
     if w.get("kind") == "length-sweep":
         class _C:
             def __init__(self):
